@@ -75,13 +75,6 @@ mod proofs {
     use super::*;
     use crate::verif_kani::Sym;
 
-    #[kani::proof_for_contract(intersection_param)]
-    fn contract_intersection_param() {
-        let (a0, ad, b0, bd) = (any_vec(&mut Sym), any_vec(&mut Sym), any_vec(&mut Sym), any_vec(&mut Sym));
-        let (a0, ad, b0, bd) = (Point2::new(a0.0, a0.1), Vector2::new(ad.0, ad.1), Point2::new(b0.0, b0.1), Vector2::new(bd.0, bd.1));
-        kani::cover!(ad.x > 1.0 && bd.y < -1.0);
-        intersection_param(&a0, &ad, &b0, &bd);
-    }
     #[kani::proof] fn intersection_param_guard() { h_param_guard(&mut Sym); kani::cover!(true); }
     #[kani::proof] fn intersection_param_finite() { h_param_finite(&mut Sym); kani::cover!(true); }
     #[kani::proof] fn from_3_points_guard() { h_3pt_guard(&mut Sym); kani::cover!(true); }
